@@ -121,6 +121,11 @@ func (x *hW) legalStepSmall(op int) {
 	case 2:
 		s := sets[3+vChoice("set", 2)]
 		x.opBuilderNew(s, hRelOf(s), true, x.pickOKTarget("tgt"), vChoice("withcomps", 2) == 1)
+	case 4: // Remove one component
+		i := x.pickAliveIdx("ent")
+		k := [3]int{uA, uB, uR1}[vChoice("comp", 3)]
+		vAssume(x.set[i]&(1<<k) != 0)
+		x.opExchange(i, 0, 1<<k, 2)
 	default:
 		x.legalStep(op)
 	}
